@@ -383,6 +383,8 @@ gate_wait_parked(int ms)
             break;
     }
     int p = parked;
+    if (!p)
+        gate_armed = 0; // timed out: the streamer must not park later, while the client is inside the call under test
     pthread_mutex_unlock(&gm);
     return p;
 }
